@@ -48,8 +48,10 @@ def contracts():
     cs.append(Contract(
         target=f"{CP}::CsvPath.get_total_lines_and_headers", variant="in_a_csvpaths",
         types={"self.csvpaths": "obj:CsvPaths", "self.csvpaths.file_manager": "obj:FileManager", "self.csvpaths.file_manager.cacher": "obj:FileCacher",
-               "self.scanner": "obj:Scanner", "self.scanner.filename": "str", "self._headers": "val", "self._line_monitor": "obj:LineMonitor"},
-        requires=["len(self.scanner.filename) > 0"],
+               "self.scanner": "obj:Scanner", "self.scanner.filename": "str", "self._headers": "val", "self._line_monitor": "obj:LineMonitor",
+               "self.delimiter": "str", "self.quotechar": "str", "self.csvpaths.delimiter": "str", "self.csvpaths.quotechar": "str"},
+        # (a csvpath that reads its file in the dialect of its CsvPaths; a predecessor's data.csv read in another dialect goes to its own LineCounter)
+        requires=["len(self.scanner.filename) > 0", "self.delimiter == self.csvpaths.delimiter and self.quotechar == self.csvpaths.quotechar"],
         modifies=["self._line_monitor", "self._headers", "self.csvpaths.file_manager.cacher.g_lm_calls", "self.csvpaths.file_manager.cacher.g_hdr_calls"],
         ensures={"line_counts_of_the_file_being_scanned": "self._line_monitor.g_of == self.scanner.filename",
                  "headers_of_the_file_being_scanned": "same(self._headers, ufun_val('headers_of', self.scanner.filename))"},
